@@ -282,17 +282,20 @@ OPTION_SETS = {
     'export': [{}, {'continuous': True}, {'gf_split': True}, {'gf_split': True, 'gf_separator': '#'},
                {'replace_parens': True}, {'gz': True}, {'enc': 'latin-1'}, {'enc': 'utf-16'},
                {'continuous': True, 'gf_split': True, 'replace_parens': True}, {'gz': True, 'enc': 'latin-1'},
-               {'gz': 'members'}],
+               {'gz': 'members'}, {'eol': 'crlf'}, {'final': 'none'}, {'final': 'double'}, {'path': 'odd'}, {'path': 'relative', 'gz': True},
+               {'eol': 'crlf', 'final': 'none', 'enc': 'utf-16'}],
     'brackets': [{}, {'gf_split': True}, {'gf_split': True, 'gf_separator': '#'}, {'replace_parens': True},
                  {'brackets_firstid': 17}, {'brackets_firstid': 0}, {'brackets_emptypos': True}, {'gz': True}, {'enc': 'latin-1'},
                  {'enc': 'utf-16'}, {'noquiet': True}, {'brackets_firstid': 5, 'gf_split': True, 'replace_parens': True},
-                 {'gz': True, 'enc': 'latin-1'}, {'gz': 'members', 'enc': 'utf-16'}],
+                 {'gz': True, 'enc': 'latin-1'}, {'gz': 'members', 'enc': 'utf-16'},
+                 {'eol': 'crlf'}, {'final': 'double'}, {'path': 'odd', 'gz': True}, {'path': 'relative'}],
     'discobrackets': [{}, {'disco_reordered': True}, {'gf_split': True}, {'brackets_firstid': 9}, {'gz': True}, {'gz': 'members'},
-                      {'replace_parens': True}, {'brackets_firstid': 0, 'disco_reordered': True}],
+                      {'replace_parens': True}, {'brackets_firstid': 0, 'disco_reordered': True},
+                      {'eol': 'crlf'}, {'final': 'none'}, {'path': 'odd'}],
     'tigerxml': [{}, {'continuous': True}, {'gf_split': True}, {'gf_split': True, 'gf_separator': '#'},
                  {'replace_parens': True}, {'gz': True}, {'enc': 'latin-1'}, {'enc': 'utf-16'}, {'noquiet': True},
                  {'continuous': True, 'gf_split': True, 'replace_parens': True}, {'gz': True, 'enc': 'utf-16'},
-                 {'gz': 'members', 'enc': 'latin-1'}],
+                 {'gz': 'members', 'enc': 'latin-1'}, {'eol': 'crlf'}, {'final': 'none'}, {'path': 'odd'}, {'path': 'relative'}],
 }
 PAREN = [('(', 'LRB'), ('-LRB-', 'LRB'), ('[', 'LSB'), ('-LSB-', 'LSB'), ('{', 'LCB'), ('-LCB-', 'LCB'),
          (')', 'RRB'), ('-RRB-', 'RRB'), (']', 'RSB'), ('-RSB-', 'RSB'), ('}', 'RCB'), ('-RCB-', 'RCB')]
@@ -383,6 +386,17 @@ def expected_corpus(mts, fmt, layout, opts):
 
 def write_file(fmt, text, opts, binary_enc):
     name = {'export': 'c.export', 'brackets': 'c.mrg', 'discobrackets': 'c.dbr', 'tigerxml': 'c.xml'}[fmt]
+    # file-level features: line ends, final newline, blank lines at the end, odd and relative paths
+    if opts.get('eol') == 'crlf':
+        text = text.replace('\n', '\r\n')
+    if opts.get('final') == 'none':
+        text = text.rstrip('\r\n')
+    elif opts.get('final') == 'double':
+        text = text + '\n\n'
+    if opts.get('path') in ('odd', 'relative'):
+        sub = os.path.join(scratch(), 'tree bank (v2) \u00fc[1]')
+        os.makedirs(sub, exist_ok=True)
+        name = os.path.join('tree bank (v2) \u00fc[1]', 'c\u00f6rpus *1?.' + name.split('.')[1])
     path = os.path.join(scratch(), name + ('.gz' if opts.get('gz') else ''))
     data = text.encode(binary_enc)
     if opts.get('gz') == 'members':
@@ -418,7 +432,7 @@ def check_corpus(fmt, mtjs, layout, opts):
                               % (detail, [model.mt_str(m.root, m.toks) for m in mts], layout, opts),
                     'what': '%s reader: %s' % (fmt, kind)})
     enc = opts.get('enc', 'utf-8')
-    ropts = cli_options({k: v for k, v in opts.items() if k not in ('gz', 'enc', 'noquiet')})
+    ropts = cli_options({k: v for k, v in opts.items() if k not in ('gz', 'enc', 'noquiet', 'eol', 'final', 'path')})
     if not opts.get('noquiet'):
         ropts['quiet'] = True
     enc_kw = dict(layout)
@@ -437,7 +451,17 @@ def check_corpus(fmt, mtjs, layout, opts):
     else:
         text = codecs.encode_tigerxml(mts, encoding=enc, **enc_kw)
     path = write_file(fmt, text, opts, enc)
-    trees_, err, so, se = run_reader(getattr(treeinput, fmt), path, enc, **ropts)
+    rpath, old_cwd = path, None
+    if opts.get('path') == 'relative':
+        # the file is named relative to a working directory that is neither its own nor the tool's
+        old_cwd = os.getcwd()
+        os.chdir(scratch())
+        rpath = os.path.join('.', os.path.relpath(path, scratch()))
+    try:
+        trees_, err, so, se = run_reader(getattr(treeinput, fmt), rpath, enc, **ropts)
+    finally:
+        if old_cwd is not None:
+            os.chdir(old_cwd)
     if err is None and not opts.get('gz') and enc == 'utf-8' and fmt in SISTER:
         # another reader alive: a generator of the sister format (brackets <-> discobrackets, export <-> TIGER-XML) was
         # started on another file and is half-way through it while this file is read again
